@@ -644,6 +644,7 @@ def rule_m8(ctx) -> None:
 
 
 def check(ctx) -> None:
+    rule_m15(ctx)
     rule_m10(ctx)
     rule_m9(ctx)
     rule_m8(ctx)
@@ -707,7 +708,6 @@ def rule_m14(ctx, rule_id: str = "C09-M14") -> None:
         ctx.instance(rule_id, "concat: %s (from the parts' SMILES: %s, de-duplicated: %s)" % (unparse(c)[:70], smi, bad is not None), f.loc(c), ok=bad is None)
         if bad is not None:
             ctx.finding(rule_id, "Compound.concat:parts-as-set", f.loc(c), "the SMILES of the parts are collected in a set (%s) before they are joined and parsed: two equal compounds (two identical leaving groups of one reaction) become one and the merged result loses their heavy atoms" % unparse(bad)[:60])
-    rule_m15(ctx)
 
 
 def rule_m15(ctx, rule_id: str = "C09-M15") -> None:
@@ -716,7 +716,7 @@ def rule_m15(ctx, rule_id: str = "C09-M15") -> None:
     one of two equal fragments, the other vanishes and the merged product has half the atoms."""
     ctx.rule(rule_id, "on the merge path compounds are not collected in a dict / set keyed by their SMILES", 1)
     prog = ctx.prog
-    scope = sorted(q for q in ctx.res.reachable([MERGE], ctx.graph) if q.startswith("synrbl.SynMCSImputer."))
+    scope = sorted({q for q in ctx.res.reachable([MERGE], ctx.graph) if q.startswith("synrbl.SynMCSImputer.")} | {q for q in prog.functions if q.startswith("synrbl.SynMCSImputer.structure.")})
     n = 0
     for q in scope:
         f = prog.functions.get(q)
@@ -732,8 +732,17 @@ def rule_m15(ctx, rule_id: str = "C09-M15") -> None:
             elif isinstance(x, ast.Call) and isinstance(x.func, ast.Name) and x.func.id in ("dict", "set", "frozenset") and x.args and isinstance(x.args[0], (ast.GeneratorExp, ast.ListComp)):
                 e = x.args[0].elt
                 key = e.elts[0] if isinstance(e, ast.Tuple) and e.elts else e
-            elif isinstance(x, ast.Assign) and len(x.targets) == 1 and isinstance(x.targets[0], ast.Subscript) and isinstance(getattr(x, "_parent", None), ast.For):
+            elif isinstance(x, ast.Assign) and len(x.targets) == 1 and isinstance(x.targets[0], ast.Subscript) and (isinstance(getattr(x, "_parent", None), ast.For) or "compound" in unparse(x.targets[0].value).lower()):
                 key = x.targets[0].slice
+                # a key computed by a helper: judge what the helper returns
+                if isinstance(key, ast.Call):
+                    tg = ctx.res.resolve_callee(key, f)
+                    g = prog.functions.get(tg[1]) if tg and tg[0] == "func" else None
+                    if g is not None:
+                        rets = [r.value for r in own_nodes(g.node) if isinstance(r, ast.Return) and r.value is not None]
+                        if rets:
+                            extra = [v for r_ in rets for nm in {y.id for y in ast.walk(r_) if isinstance(y, ast.Name)} for _s, v, _i in assignments_to(g, nm)]
+                            key = ast.Tuple(elts=rets + extra, ctx=ast.Load())
             if key is None:
                 continue
             by_smiles = any(isinstance(y, ast.Attribute) and y.attr in ("smiles", "src_smiles") for y in ast.walk(key)) or any(isinstance(y, ast.Call) and unparse(y.func).split(".")[-1] in ("MolToSmiles", "CanonSmiles") for y in ast.walk(key))
